@@ -164,9 +164,18 @@ var mVariants = []mVariant{
 	{"matryer-stub-resets@iface", "matryer", map[string]bool{"stub-impl": true, "with-resets": true}, "interface"},
 }
 
+// mMate is a second interface generated into the same file as the unit's first one, with
+// options of its own (given in its interface config).
+type mMate struct {
+	Iface       mIface
+	VariantName string
+	Opts        map[string]bool
+}
+
 type mUnit struct {
 	Iface   mIface
 	Variant mVariant
+	Mate    *mMate
 	Pkg     string // package name and directory under gen/
 	GenErr  string // generation failed (not a verdict of C03–C05)
 	BuildErr string
@@ -229,6 +238,17 @@ func mPrepare(c *core.Ctx) {
 			e.units = append(e.units, u)
 		}
 	}
+	// two mocks in one output file, with different effective options
+	pairs := []*mUnit{
+		{Iface: mIface{"Twins", ""}, Variant: mVariant{"testify-pair-first", "testify", map[string]bool{}, ""}, Mate: &mMate{mIface{"VarOne", ""}, "testify-pair-second-unroll-true", map[string]bool{"unroll-variadic": true}}},
+		{Iface: mIface{"VarOne", ""}, Variant: mVariant{"testify-pair-first-unroll-true@iface", "testify", map[string]bool{"unroll-variadic": true}, "interface"}, Mate: &mMate{mIface{"VarTwo", ""}, "testify-pair-second-default", map[string]bool{}}},
+		{Iface: mIface{"Embeds", ""}, Variant: mVariant{"matryer-pair-first", "matryer", map[string]bool{}, ""}, Mate: &mMate{mIface{"Basic", ""}, "matryer-pair-second-stub-resets", map[string]bool{"stub-impl": true, "with-resets": true}}},
+		{Iface: mIface{"Basic", ""}, Variant: mVariant{"matryer-pair-first-stub@iface", "matryer", map[string]bool{"stub-impl": true}, "interface"}, Mate: &mMate{mIface{"Twins", ""}, "matryer-pair-second-plain", map[string]bool{}}},
+	}
+	for _, u := range pairs {
+		u.Pkg = strings.NewReplacer("-", "_", "@", "_at_").Replace(u.Variant.Name) + "_" + strings.ToLower(u.Iface.Name)
+		e.units = append(e.units, u)
+	}
 	core.ParallelMap(c.Jobs, len(e.units), func(i int) int {
 		u := e.units[i]
 		cfg := world.NewY()
@@ -247,6 +267,17 @@ func mPrepare(c *core.Ctx) {
 			}
 		}
 		cfg.Sub("packages").Sub(mMod + "/corpus").Sub("interfaces").Set(u.Iface.Name, ic)
+		if u.Mate != nil {
+			mc := world.NewY()
+			if len(u.Mate.Opts) > 0 {
+				td := world.NewY()
+				for _, k := range core.SortedKeys(u.Mate.Opts) {
+					td.Set(k, u.Mate.Opts[k])
+				}
+				mc.Sub("config").Set("template-data", td)
+			}
+			cfg.Sub("packages").Sub(mMod + "/corpus").Sub("interfaces").Set(u.Mate.Iface.Name, mc)
+		}
 		cfgPath := filepath.Join(e.dir, "cfg-"+u.Pkg+".yml")
 		os.WriteFile(cfgPath, []byte(cfg.String()), 0o644)
 		st := world.Step{Args: []string{"--config", cfgPath}, Plan: world.Plan("asc", 1, 0, 2022, 4242)}
@@ -322,6 +353,19 @@ func mPrepare(c *core.Ctx) {
 		}
 		fmt.Fprintf(&b, "\t\t{Variant: %q, Style: %q, Opts: %s, Iface: %q, IfaceType: reflect.TypeOf((*corpus.%s%s)(nil)).Elem(), New: %s},\n",
 			u.Variant.Name, u.Variant.Style, opts, u.Iface.Name, u.Iface.Name, u.Iface.TypeArgs, newExpr)
+		if u.Mate != nil {
+			mopts := "map[string]bool{"
+			for _, k := range core.SortedKeys(u.Mate.Opts) {
+				mopts += fmt.Sprintf("%q: %v, ", k, u.Mate.Opts[k])
+			}
+			mopts += "}"
+			mnew := fmt.Sprintf("func(t *msim.RecT) any { return &%s.Mock%s%s{} }", u.Pkg, u.Mate.Iface.Name, u.Mate.Iface.TypeArgs)
+			if u.Variant.Style == "testify" {
+				mnew = fmt.Sprintf("func(t *msim.RecT) any { return %s.NewMock%s%s(t) }", u.Pkg, u.Mate.Iface.Name, u.Mate.Iface.TypeArgs)
+			}
+			fmt.Fprintf(&b, "\t\t{Variant: %q, Style: %q, Opts: %s, Iface: %q, IfaceType: reflect.TypeOf((*corpus.%s%s)(nil)).Elem(), New: %s},\n",
+				u.Mate.VariantName, u.Variant.Style, mopts, u.Mate.Iface.Name, u.Mate.Iface.Name, u.Mate.Iface.TypeArgs, mnew)
+		}
 	}
 	b.WriteString("\t})\n}\n")
 	os.WriteFile(filepath.Join(e.dir, "main.go"), []byte(b.String()), 0o644)
